@@ -34,6 +34,7 @@ func init() {
 			{"C19/default-compare", "isZero: IsZero() only without a default tag (or unknown kind); true/false only over the comparison with the parsed default", c19DefaultCompare},
 			{"C19/parser", "Unmarshal: SplitN(line, \":\", 3) with exactly three fields; malformed lines end the parse with an error", c19Parser},
 			{"C19/letters", "Marshal's type letters and formats are the ones Unmarshal accepts and inverts", c19Letters},
+			{"C19/fresh-builder", "each download renders a builder of its own: NewBuilder / NewBuilderFromFile return a freshly allocated Builder and package rdp keeps no builders", c19FreshBuilder},
 			{"C19/forced", "gateway-controlled settings stored after the template load and before rendering, on every path", c19Forced},
 		},
 	})
@@ -699,4 +700,51 @@ func c19Forced(c *Ctx) {
 	}
 	c.Check(bodyOK, rule, "HandleDownload body", str.Pos(), "the response body is d.String()", "the rendered file is not what is served")
 	c.Floor(rule, 8, "6 settings + user + body")
+}
+
+// c19FreshBuilder: HandleDownload writes the per-request settings straight into the builder it got;
+// a builder shared between downloads (a template cache) carries one user's name, domain, host and
+// token into the next user's file.
+func c19FreshBuilder(c *Ctx) {
+	rule := "C19/fresh-builder"
+	for _, name := range []string{"NewBuilder", "NewBuilderFromFile"} {
+		fn := c.Fn("cmd/rdpgw/rdp", name)
+		good := true
+		why := ""
+		for _, r := range returnsOf(fn) {
+			v := strip(unspill(r.Results[0]))
+			if isNil(v) {
+				continue
+			}
+			al, ok := v.(*ssa.Alloc)
+			if !ok || al.Parent() != fn || !al.Heap {
+				good, why = false, "returns "+describeValue(v)
+			}
+		}
+		c.Check(good, rule, name+" fresh", fn.Pos(), "returns a Builder allocated by this call", "the builder returned is not allocated by this call ("+why+"): downloads share one builder and overwrite each other's settings")
+	}
+	// no package-level builder storage in package rdp
+	rp := c.P.Pkg("cmd/rdpgw/rdp")
+	n := 0
+	if rp != nil {
+		for _, nm := range rp.Types.Scope().Names() {
+			if v, ok := rp.Types.Scope().Lookup(nm).(*types.Var); ok {
+				ts := v.Type().String()
+				if strings.Contains(ts, "sync.Map") || strings.Contains(ts, "map[") || strings.Contains(ts, "Builder") || strings.Contains(ts, "cache") {
+					n++
+					c.Bad(rule, "package variable "+nm, v.Pos(), "package rdp keeps state of type %s across calls: a place for builders or parsed templates to be shared between downloads", ts)
+				}
+			}
+		}
+	}
+	if n == 0 {
+		c.OKTrivial(rule, "package state", token.NoPos, "package rdp has no package-level container")
+	}
+}
+
+func describeValue(v ssa.Value) string {
+	if in, ok := v.(ssa.Instruction); ok {
+		return describe(in)
+	}
+	return v.String()
 }
